@@ -220,6 +220,8 @@ def config(sc, work, plug=PLUG):
               [("pid", "i4"), ("X", "f8"), ("Y", "f8"), ("Z", "f8"), ("age", "i4"), ("farm", "i4")]}
     if sc["hasscal"]:
         out_iv["temp"] = dict(encoding=dict(datatype="f8"), attributes={})
+    if sc.get("out_active"):        # the activity flag saved with the records (needed to restart a run with resting particles)
+        out_iv["active"] = dict(encoding=dict(datatype="i1"), attributes={})
     for v in sc.get("out_drop", []):          # state variables that are NOT written (the output holds exactly the configured ones)
         out_iv.pop(v)
     conf = dict(
@@ -269,7 +271,7 @@ def config(sc, work, plug=PLUG):
         # a restart file written without particle variables can only restore the instance variables (the release file's columns
         # stay declared as state variables: undeclared columns are an error)
         pv = ["release_time", "src"] if sc["pvars"] else []
-        conf["warm_start"] = dict(filename=sc["warm"]["file"], variables=["age", "farm"] + pv + (["temp"] if sc["hasscal"] else []))
+        conf["warm_start"] = dict(filename=sc["warm"]["file"], variables=["age", "farm"] + pv + (["temp"] if sc["hasscal"] else []) + (["active"] if sc.get("out_active") else []))
     return conf
 
 
